@@ -165,3 +165,6 @@ def cases(tier, seed, ctx=None):
         for ops in ([G.Construct, G.Feed(head), G.Turn], [G.Construct, G.Feed(head + b"abc"), G.Feed(b"defg"), G.Turn, G.PeerFin, G.Turn],
                     [G.Feed(head + b"x"), G.Construct, G.Turn, G.App(G.ReadAll)]):
             yield ("sock", [rng.choice(pols), ops, e11, [19]], "length-at-a-boundary")
+    # Range headers made of separators only, and sets whose first element is unusable: the file handler answers every one of them
+    for sp in (b"bytes=", b"bytes=,", b"bytes= , ,", b"bytes=,,", b"bytes=\t", b"bytes=,0-1", b"bytes=20-30,2-4", b"bytes", b"=", b","):
+        yield ("fs", [[[b"root/f.bin", 0, b"0123456789"]], b"@BASE@/root", b"f.bin", [[b"Range", sp]], ver0, [8, 0, b"0123456789"]], "range-of-separators")
